@@ -35,6 +35,9 @@ type libRoot struct {
 	Ratio  float64        `json:"ratio"`
 	Extra  map[string]any `json:"extra"` // a plain (map-based) sub-object with object-typed defaults of its own
 	Items  []any          `json:"items"` // the same plain object as list item
+	// a conflict declared on one of the two properties only
+	Excl  string `json:"excl"`
+	Other string `json:"other"`
 }
 
 // buildLibScope builds a struct-mapped scope whose non-pointer object members carry defaults and whose
@@ -52,6 +55,8 @@ func buildLibScope() *schema.ScopeSchema {
 		"ratio":  prop(schema.NewFloatSchema(f64(0), nil, schema.UnitPercentage), false, strp(`"50%"`)),
 		"extra":  prop(schema.NewRefSchema("libPlain", nil), false, nil),
 		"items":  prop(schema.NewListSchema(schema.NewRefSchema("libPlain", nil), nil, nil), false, nil),
+		"excl":   schema.NewPropertySchema(schema.NewStringSchema(nil, nil, nil), nil, false, nil, nil, []string{"other"}, nil, nil),
+		"other":  prop(schema.NewStringSchema(nil, nil, nil), false, nil),
 	})
 	plain := schema.NewObjectSchema("libPlain", map[string]*schema.PropertySchema{
 		"name":     prop(schema.NewStringSchema(nil, nil, nil), false, nil),
@@ -98,6 +103,14 @@ func libValues(s Src) any {
 	}
 	if s.Choose("lv.ratio", 3) == 1 {
 		v["ratio"] = "12.5%"
+	}
+	switch s.Choose("lv.excl", 5) {
+	case 1:
+		v["excl"] = "e"
+	case 2:
+		v["other"] = "o"
+	case 3:
+		v["excl"], v["other"] = "e", "o" // violates the one-sided conflict rule
 	}
 	plainVal := func() map[string]any {
 		switch s.Choose("lv.plain", 3) {
